@@ -467,6 +467,11 @@ def mutate_element(e, sub, rng, gdim, tdim):
     return E.VElement(fam, e._cellname, deg, e._rshape, kind, space, subdegree=subdeg)
 
 
+def cellname(mesh):
+    n = mesh.ufl_cell().cellname
+    return n() if callable(n) else n
+
+
 def _space_key(V):
     return (V.ufl_domain().ufl_id(), repr(V.ufl_element()))
 
@@ -524,7 +529,7 @@ def mut_coefficient_vs_constant(F, S, rng, U):
     elif ks:
         f = _pick(rng, ks)
         mesh = f._ufl_domain
-        el = E.VElement("DG", mesh.ufl_cell().cellname(), 0, tuple(f.ufl_shape), "identity", "L2")
+        el = E.VElement("DG", cellname(mesh), 0, tuple(f.ufl_shape), "identity", "L2")
         new = C.Coefficient(ufl.FunctionSpace(mesh, el))
         sub = "constant-to-coefficient"
     else:
